@@ -180,6 +180,58 @@ func families(tier string) []listed {
 		addS(scenario{Event: ev, State: "midstream", Passive: true, Bound: pick(1, 2)})
 		addS(scenario{Event: ev, State: "blocked", Passive: true, Bound: pick(1, 2)})
 	}
+
+	// round 7: the upstream connection's Close reports an error (upclose.go) - the teardown must go on all the
+	// same. "always": every Close fails; every kind of ending x 4 states, reactive peers, and idle with passive
+	// peers; the endings of the start-up phase (its shutdown watcher and the deferred Close are teardown paths of
+	// their own). server_close:mid_preface and the flooded / stalled-peer states are left out: recorded findings
+	// whose root cause does not depend on Close (and the alert of a tls.Conn is skipped while a write is in flight).
+	fam = "upclose"
+	allEndings := append(append([]string{}, basicEvents...), kindEvents...)
+	for _, ev := range allEndings {
+		for _, st := range []string{"idle", "midstream", "blocked", "blocked_s2c"} {
+			addS(scenario{Event: ev, State: st, UpClose: upCloseAlways, Bound: pick(1, 2)})
+		}
+		addS(scenario{Event: ev, State: "idle", UpClose: upCloseAlways, Passive: true, Bound: pick(1, 2)})
+	}
+	for _, ev := range []string{"client_close", "shutdown", "bad_frame_client"} {
+		addS(scenario{Event: ev, State: "mid_preface", UpClose: upCloseAlways, Bound: 2})
+		addS(scenario{Event: ev, State: "pre_settings", UpClose: upCloseAlways, Bound: 2})
+	}
+	addS(scenario{Event: "server_close", State: "pre_settings", UpClose: upCloseAlways, Bound: 2})
+	for _, ev := range []string{"client_close", "shutdown"} {
+		addS(scenario{Event: ev, State: "no_preface", UpClose: upCloseAlways, Bound: 2})
+	}
+	addS(scenario{Event: "bad_preface", State: "idle", UpClose: upCloseAlways, Bound: 2})
+	// "tls": Close fails exactly when the close_notify alert cannot be written, i.e. when the transport toward
+	// the server is broken at that moment: reset by the server, an earlier write failed, writes fail from now on
+	// (write_fails_server, combined with every way the session can end otherwise). thorough: every ending (for
+	// most of them Close succeeds - the alert is one more step of the teardown)
+	brokenUpstream := []string{"server_abort", "write_err_server", "write_err_server_fwd", "client_abort+server_abort",
+		"write_fails_server+server_close", "write_fails_server+server_halfclose", "write_fails_server+bad_frame_server",
+		"write_fails_server+write_err_client", "write_fails_server+shutdown", "write_fails_server+client_close", "write_fails_server+client_halfclose"}
+	for _, ev := range brokenUpstream {
+		for _, st := range []string{"idle", "midstream", "blocked"} {
+			if ev == "write_err_server_fwd" && st == "blocked" {
+				continue // the DATA frame whose forwarding is to fail waits behind the zero window: no write, no ending
+			}
+			addS(scenario{Event: ev, State: st, UpClose: upCloseTLS, Bound: pick(1, 2)})
+		}
+		addS(scenario{Event: ev, State: "idle", UpClose: upCloseTLS, Passive: true, Bound: pick(1, 2)})
+	}
+	for _, st := range []string{"no_preface", "mid_preface"} {
+		addS(scenario{Event: "write_err_server", State: st, UpClose: upCloseTLS, Bound: 2}) // the forwarded preface fails
+	}
+	if thorough {
+		for _, ev := range allEndings {
+			if ev == "server_abort" || ev == "write_err_server" {
+				continue
+			}
+			for _, st := range []string{"idle", "midstream", "blocked"} {
+				addS(scenario{Event: ev, State: st, UpClose: upCloseTLS, Bound: 1})
+			}
+		}
+	}
 	return out
 }
 
